@@ -51,7 +51,7 @@ where
                     } else {
                         min(
                             PARAMS_MAX_CAPACITY,
-                            PARAMS_CAPACITY_BASE * rule.duration_in_sec as usize,
+                            PARAMS_CAPACITY_BASE.saturating_mul(rule.duration_in_sec as usize),
                         )
                     }
                 };
